@@ -26,6 +26,7 @@ macro_rules! dispatch {
             "C07" => pbt::$f::<props::c07::C07>($($args),*),
             "C09" => pbt::$f::<props::c09::C09>($($args),*),
             "C11" => pbt::$f::<props::c11::C11>($($args),*),
+            "C12" => pbt::$f::<props::c12::C12>($($args),*),
             "C13" => pbt::$f::<props::c13::C13>($($args),*),
             "C14" => pbt::$f::<props::c14::C14>($($args),*),
             "C15" => pbt::$f::<props::c15::C15>($($args),*),
